@@ -2,6 +2,7 @@ package main
 
 import (
 	"bytes"
+	"encoding/binary"
 	"errors"
 	"fmt"
 	"sort"
@@ -21,7 +22,34 @@ var c08Names = []string{"GetStatus", "GetRules", "AddRule", "DeleteRule", "Delet
 
 var ruleX = bytes.Repeat([]byte{0x11, 0x22, 0x33, 0x44}, 20)
 
+// realRule lays a payload out as struct audit_rule_data: 1040-byte header with buflen at 1036, buflen
+// bytes of strings, and tail alignment bytes as nlmsg_put appends them (or other tail lengths).
+func realRule(i, buflen, tail int) []byte {
+	b := make([]byte, 1040+buflen+tail)
+	binary.LittleEndian.PutUint32(b[0:], 4)        // flags: exit list
+	binary.LittleEndian.PutUint32(b[4:], 2)        // action: always
+	binary.LittleEndian.PutUint32(b[8:], 1)        // field_count
+	binary.LittleEndian.PutUint32(b[12+256:], 210) // fields[0] = AUDIT_FILTERKEY
+	binary.LittleEndian.PutUint32(b[12+512:], uint32(buflen))
+	binary.LittleEndian.PutUint32(b[12+768:], 64) // fieldflags[0] = AUDIT_EQUAL
+	binary.LittleEndian.PutUint32(b[1036:], uint32(buflen))
+	for k := 0; k < buflen+tail; k++ {
+		b[1040+k] = byte('a' + (i+k)%26)
+	}
+	return b
+}
+
 func simRules(n int) [][]byte {
+	if n == 201 {
+		// realistic rule messages: every buflen 0..9 x every tail length 0..4 (incl. exactly the alignment amount)
+		var out [][]byte
+		for bl := 0; bl <= 9; bl++ {
+			for tail := 0; tail <= 4; tail++ {
+				out = append(out, realRule(len(out), bl, tail))
+			}
+		}
+		return out
+	}
 	var out [][]byte
 	for i := 0; i < n; i++ {
 		out = append(out, bytes.Repeat([]byte{byte(0xA0 + i), byte(i + 1)}, 30+i))
@@ -77,7 +105,7 @@ func execC08(hist []int, nRules int, env *envdfs.Env, errTexts map[string]map[in
 	}
 	nRulesArg := nRules
 	statusLen := 44
-	if nRules >= 100 {
+	if nRules >= 100 && nRules < 200 {
 		// nRules 132/136/140/148: a kernel of an older / newer layout answering AUDIT_GET with
 		// 32/36/40/48 bytes (and holding 1 rule)
 		statusLen = nRules - 100
@@ -304,6 +332,15 @@ func c08Sweeps(tier string) []interface{} {
 		}
 		jobs = append(jobs, Job{Kind: "c08", Histories: single, NRules: 2, Bound: 0, Shapes: typeShapes[i:k]})
 	}
+	// how the transport reports a failed receive: bare errno, wrapped with %w, *os.SyscallError - transient
+	// EINTR / EAGAIN stay transient however they are wrapped (bound 2: a fault plus one more deviation)
+	for _, w := range []int{1, 2} {
+		for _, c := range chunk(single, 4) {
+			jobs = append(jobs, Job{Kind: "c08", Histories: c, NRules: 2, Bound: 2, Shapes: []ksim.Shape{{WrapErrors: w}}})
+		}
+	}
+	// a kernel holding 50 realistic rule messages (audit_rule_data layout, every buflen 0..9 x tail 0..4 bytes)
+	jobs = append(jobs, Job{Kind: "c08", Histories: allHistories([]int{1, 4}, 1), NRules: 201, Bound: 1})
 	var errnoShapes []ksim.Shape
 	for e := 1; e <= 4095; e++ {
 		if e <= 133 || (e >= 512 && e <= 530) || e == 4095 {
